@@ -22,6 +22,14 @@ type gosymGatedKeep struct {
 
 func (k *gosymGatedKeep) PutB(p []byte) (string, int, error) {
 	if k.hold {
+		// The filesystem keeps at most 4 block writes in flight and makes the foreground wait for one of them to
+		// finish before starting a fifth (back-pressure by design).  The gate therefore never sits on more than
+		// 3 writes: when another one arrives the oldest held write is let through (successfully).
+		for len(k.pending) >= 3 {
+			old := k.pending[0]
+			k.pending = k.pending[1:]
+			old.rel <- true
+		}
 		pe := &gosymPending{data: append([]byte(nil), p...), rel: make(chan bool)}
 		k.pending = append(k.pending, pe)
 		if !<-pe.rel {
@@ -87,7 +95,6 @@ func GosymH_C13_async() {
 	nops := gosym_Param("ops", 2)
 	for op := 0; op < nops; op++ {
 		tag := string(rune('0' + op))
-		kc.drainTo(1, "before-op"+tag) // one write may stay in flight; an operation starts at most three more (limit: 4)
 		if op == 0 || gosym_Fork("write"+tag) {
 			off := gosym_Choice("off"+tag, 3)
 			ln := 1 + gosym_Choice("len"+tag, 3)
